@@ -634,6 +634,16 @@ func c10Check(c *core.Ctx, groups map[string]*c10Group, base cfg.Spec, src []byt
 
 func replayC10(c *core.Ctx, v *core.Violation) (bool, string) {
 	g := c10Build(specOf(v.Config))
+	if steps := arenaFromScript(v.Script); steps != nil {
+		a := &srcArena{}
+		for i, s := range steps {
+			rs, _ := c10Eval(g, a.load(s.Doc))
+			if len(rs) > 0 {
+				return true, fmt.Sprintf("step %d of the recycled-buffer history: %s %s %s", i+1, rs[0].class, rs[0].locus, rs[0].detail)
+			}
+		}
+		return false, "all pairs satisfy their relation at every step of the history"
+	}
 	deco := strings.HasPrefix(v.Locus, "decorated-tree:")
 	rs, st := c10EvalMode(g, v.Input, deco)
 	for i := range rs {
@@ -666,10 +676,57 @@ var c10Tokens = []string{
 	"# h {#i .c}\n", "# a\nb {k=v}\n===\n", "{#z}\n", "あ\nい", "a\nあ", "\x00", "<div>\x00\n", "<b\x00>", "é", "\x80", "\t", "\r\n", " ", "a", "b", "*", "_", "`", "[", "]", "(", ")", "<", ">", "!", "\"",
 }
 
+// c10Arena: the eight renderers of a group convert documents that a caller reads into one recycled buffer: a document with a
+// dangerous destination, then - written over it - the same document with a harmless destination of the same length (and the
+// other way round). Whatever a renderer remembers about "the destination at this place" is stale by then; the relations
+// between the eight outputs must hold at every step all the same.
+func c10Arena(c *core.Ctx, groups map[string]*c10Group) {
+	r := c.Rng
+	a := &srcArena{}
+	n := c.PerShard(c.N(6000, 300000))
+	for i := 0; i < n; i++ {
+		con := c04Constructs[r.Intn(len(c04Constructs))]
+		h := c04Harmless[r.Intn(len(c04Harmless))]
+		scheme := c04Schemes[r.Intn(len(c04Schemes))]
+		d := padTo(scheme+"alert(1)", len(h), '/')
+		docH := []byte(strings.ReplaceAll(con.Tmpl, "%U", h))
+		docD := []byte(strings.ReplaceAll(con.Tmpl, "%U", d))
+		e := r.Intn(cfg.NExt)
+		base := c10Base(e, r.Intn(2))
+		name := base.Name()
+		g := groups[name]
+		if g == nil {
+			g = c10Build(base)
+			groups[name] = g
+		}
+		steps := []arenaStep{{Doc: docD}, {Doc: docH}, {Doc: docD}}
+		if r.Intn(2) == 0 {
+			steps = []arenaStep{{Doc: docH}, {Doc: docD}, {Doc: docH}}
+		}
+		c.Begin(name, docH)
+		for si, s := range steps {
+			rs, st := c10Eval(g, a.load(s.Doc))
+			c.Evals(8)
+			if !st.evaluable {
+				c.Count("conversion_failed_left_to_C01", 1)
+				continue
+			}
+			c.Count("recycled_buffer_steps", 1)
+			c.Count("dangerous_urls_matched", int64(st.urls))
+			for _, x := range rs {
+				c.Violation(&core.Violation{Class: x.class, Locus: x.locus + ":recycled-source-buffer", Config: name, Input: s.Doc, Script: arenaScript(steps),
+					Detail: fmt.Sprintf("one group of renderers, the caller reuses its source buffer between conversions:\n%sstep %d: %s", arenaDescribe(steps), si+1, x.detail)})
+			}
+		}
+		c.End()
+	}
+}
+
 func runC10(c *core.Ctx) {
 	groups := map[string]*c10Group{}
 	corpus := loadCorpus(c)
 	r := c.Rng
+	defer c10Arena(c, groups)
 	// regression / anchor documents: every void element under every extension that has one
 	anchors := []string{
 		"a  \nb\nc ![i](u)\n\n***\n\n- [x] t\n- [ ] u\n\nf[^1]\n\n[^1]: n\n\n| a |\n|:-:|\n| b<br> |\n\n<hr>\n\n[x](javascript:y) <javascript:z>\n",
